@@ -749,3 +749,198 @@ Section Held.
           apply (find_set_cond_same _ (mk_cond mem CArchived SFalse RArchivalInProgress)).
   Qed.
 End Held.
+
+(** * 9. What the phase loop leaves behind (C03 / C06) *)
+Section Passed.
+  Variable force : bool.
+  Local Notation c := (Build_cfg FObjectSet force).
+
+  (** present, passing the probe and - for a paused owner, which only reads its cache - visible to the cache *)
+  Definition obj_ok2 (w : world) (ow : owner) (p : pobj) : Prop :=
+    exists o, lookup (key_of ow p) (w_store w) = Some o /\ probe_ok (key_of ow p) o = true /\
+              (ow_paused ow = true -> o_cache o = true).
+  Definition phase_ok2 (w : world) (ow : owner) (ph : phase) : Prop := forall p, In p (ph_objects ph) -> obj_ok2 w ow p.
+
+  Lemma rec_obj_ok_cache w ow prev p w' evs o :
+    reconcile_object c idw w ow prev p = (w', evs, ROk o) -> ow_paused ow = true -> o_cache o = true.
+  Proof.
+    unfold reconcile_object. destruct (set_controller_l _ _ _ []); [|discriminate]. intros H Hp. rewrite Hp in H.
+    unfold cache_get in H. destruct (lookup _ (w_store w)) as [x|]; [|discriminate].
+    destruct (o_cache x) eqn:Ec; [|discriminate]. injection H as _ _ <-. exact Ec.
+  Qed.
+
+  Lemma rec_objs_ok_present2 ow prev ps : forall w acc failed w' evs a,
+    reconcile_objects c idw w ow prev ps acc failed = (w', evs, PhOk a []) ->
+    NoDup (map (key_of ow) ps) ->
+    failed = [] /\ forall p, In p ps -> obj_ok2 w' ow p.
+  Proof.
+    induction ps as [|p ps IH]; intros w acc failed w' evs a H Hnd; cbn in H.
+    - injection H as <- <- <- ->. split; [reflexivity|]. intros p [].
+    - inversion Hnd as [|? ? Hnotin Hnd']; subst.
+      destruct (reconcile_object c idw w ow prev p) as [[w1 e1] r1] eqn:E1.
+      destruct r1 as [o| |e]; [| |discriminate].
+      + destruct (reconcile_objects c idw w1 ow prev ps _ _) as [[w2 e2] r2] eqn:E2. injection H as <- <- ->.
+        destruct (IH _ _ _ _ _ _ E2 Hnd') as [Hf Hall].
+        fold (key_of ow p) in Hf. destruct (probe_ok (key_of ow p) o) eqn:Epr; [|destruct failed; discriminate].
+        split; [exact Hf|]. intros p0 [<-|Hin]; [|now apply Hall].
+        exists o. split; [|split; [exact Epr|eapply rec_obj_ok_cache; eauto]].
+        destruct (rec_objs_frame c ow prev (key_of ow p) ps _ _ _ _ _ _ E2) as [Hfr _].
+        * intros p1 Hin1 Heq. apply Hnotin. rewrite <- Heq. now apply in_map.
+        * rewrite Hfr. eapply rec_obj_returns_stored; eauto.
+      + destruct (reconcile_objects c idw w1 ow prev ps _ _) as [[w2 e2] r2] eqn:E2. injection H as <- <- ->.
+        destruct (IH _ _ _ _ _ _ E2 Hnd') as [Hf _]. destruct failed; discriminate.
+  Qed.
+
+  (** A phase object whose spec.paused already equals the ObjectSet's paused state is left alone. *)
+  Definition desired_paused (s : oset) : bool := lifecycle_eqb (os_life s) LPaused.
+
+  Lemma remote_reconcile_keeps sw s ph rem sw1 e1 rem1 r nm p :
+    remote_reconcile sw s ph rem = (sw1, e1, rem1, r) ->
+    find_phase (sw_phases sw) (phase_kind s) (oi_ns (os_id s)) nm = Some p -> op_paused p = desired_paused s ->
+    find_phase (sw_phases sw1) (phase_kind s) (oi_ns (os_id s)) nm = Some p.
+  Proof.
+    intros H Hf Hp. destruct (pobj_name s ph =? nm) eqn:En.
+    - apply N.eqb_eq in En. subst nm. unfold remote_reconcile in H. unfold pobj_name in Hf.
+      cbn [desired_phase op_id oi_kind oi_ns oi_name op_paused] in H. rewrite Hf in H.
+      destruct (negb _); [injection H as <- _ _ _; exact Hf|].
+      unfold desired_paused in Hp. rewrite Hp, Bool.eqb_reflx in H. injection H as <- _ _ _. exact Hf.
+    - destruct (remote_reconcile_inv _ _ _ _ _ _ _ _ H) as (_ & _ & _ & _ & Hfr & _). rewrite Hfr; [exact Hf|].
+      rewrite !N.eqb_refl, En. reflexivity.
+  Qed.
+
+  Lemma rpm_keeps s ow prev phs : forall sw acc rem sw' evs rem' r nm p,
+    reconcile_phases_m force sw s ow prev phs acc rem = (sw', evs, rem', r) ->
+    find_phase (sw_phases sw) (phase_kind s) (oi_ns (os_id s)) nm = Some p -> op_paused p = desired_paused s ->
+    find_phase (sw_phases sw') (phase_kind s) (oi_ns (os_id s)) nm = Some p.
+  Proof.
+    induction phs as [|ph rest IH]; intros sw acc rem sw' evs rem' r nm p H Hf Hp.
+    - cbn in H. injection H as <- _ _ _. exact Hf.
+    - rewrite rpm_cons in H. destruct (ph_class ph).
+      + destruct (remote_reconcile sw s ph rem) as [[[sw1 e1] rem1] r1] eqn:E1.
+        pose proof (remote_reconcile_keeps _ _ _ _ _ _ _ _ _ _ E1 Hf Hp) as Hf1.
+        destruct r1 as [|active failed]; [injection H as <- _ _ _; exact Hf1|].
+        destruct failed; [injection H as <- _ _ _; exact Hf1|].
+        destruct (reconcile_phases_m force sw1 s ow prev rest (acc ++ active) rem1) as [[[sw2 e2] rem2] r2] eqn:E2.
+        injection H as <- _ _ _. eapply IH; eauto.
+      + destruct (reconcile_phase c idw (sw_w sw) ow prev false (ph_objects ph)) as [[w1 e1] r1] eqn:E1.
+        destruct r1 as [e|vs|actual failed]; try (injection H as <- _ _ _; exact Hf).
+        destruct failed as [|f fs]; [|injection H as <- _ _ _; exact Hf].
+        cbv zeta in H.
+        match type of H with context [reconcile_phases_m force ?a s ow prev rest ?b ?d] =>
+          destruct (reconcile_phases_m force a s ow prev rest b d) as [[[sw2 e2] rem2] r2] eqn:E2 end.
+        injection H as <- _ _ _. eapply IH; eauto.
+  Qed.
+
+  (** a phase the loop got past / the phase the loop stopped at *)
+  Definition passed (sw' : sworld) (s : oset) (ow : owner) (q : phase) : Prop :=
+    if ph_class q
+    then exists cur, phase_obj_of sw' s q = Some cur /\ avail_current cur /\
+                     controlled_by_uid (op_owners cur) (oi_uid (os_id s)) = true /\ op_paused cur = desired_paused s
+    else phase_ok2 (sw_w sw') ow q.
+
+  Definition fails (sw' : sworld) (s : oset) (ow : owner) (q : phase) : Prop :=
+    if ph_class q
+    then exists cur active, phase_obj_of sw' s q = Some cur /\ relay cur = RROk active true /\
+                            controlled_by_uid (op_owners cur) (oi_uid (os_id s)) = true /\ op_paused cur = desired_paused s
+    else exists p, In p (ph_objects q) /\ obj_fails (sw_w sw') ow p.
+
+  Lemma remote_step_ok sw s ph rem sw1 e1 rem1 active failed :
+    remote_reconcile sw s ph rem = (sw1, e1, rem1, RROk active failed) ->
+    exists cur, phase_obj_of sw1 s ph = Some cur /\ relay cur = RROk active failed /\
+                controlled_by_uid (op_owners cur) (oi_uid (os_id s)) = true /\ op_paused cur = desired_paused s.
+  Proof.
+    intros H. destruct (remote_reconcile_own _ _ _ _ _ _ _ _ H) as (cur & Hc & Hr & _ & Ho & _).
+    exists cur. split; [exact Hc|]. split; [exact Hr|]. split; [exact Ho|].
+    unfold remote_reconcile, phase_obj_of, pobj_name in *. cbn [desired_phase op_id oi_kind oi_ns oi_name op_paused] in H.
+    destruct (find_phase (sw_phases sw) (phase_kind s) (oi_ns (os_id s)) (join_name (oi_name (os_id s)) (ph_name ph))) as [c0|] eqn:Ef; [|discriminate].
+    destruct (negb _); [discriminate|].
+    destruct (Bool.eqb (op_paused c0) (lifecycle_eqb (os_life s) LPaused)) eqn:Ep.
+    - injection H as <- _ _ _. rewrite Ef in Hc. injection Hc as <-. now apply Bool.eqb_prop.
+    - injection H as <- _ _ _. cbn [sw_phases with_phases] in Hc.
+      destruct (find_phase_key _ _ _ _ _ Ef) as (Hk & Hns & Hn).
+      set (cur' := phase_with c0 _ _ _ _ _ _) in *.
+      pose proof (find_put_phase_same (sw_phases sw) cur') as Hx. change (op_id cur') with (op_id c0) in Hx.
+      rewrite Hk, Hns, Hn in Hx. rewrite Hx in Hc. injection Hc as <-. reflexivity.
+  Qed.
+
+  Lemma obj_ok2_frame w w' ow p : lookup (key_of ow p) (w_store w') = lookup (key_of ow p) (w_store w) -> obj_ok2 w ow p -> obj_ok2 w' ow p.
+  Proof. intros Hl (o & Ho & rest). exists o. split; [congruence|exact rest]. Qed.
+
+  (** the pass obtained the phase object under this name from the server *)
+  Definition read_in (evs : list sev) (nm : N) : Prop :=
+    (exists r, In (SPhase (PGet nm r)) evs) \/ (exists pa p, In (SPhase (PPause nm pa (Some p))) evs).
+
+  Lemma read_in_app_l a b nm : read_in a nm -> read_in (a ++ b) nm.
+  Proof. intros [(r & H)|(pa & p & H)]; [left; exists r|right; exists pa, p]; apply in_or_app; now left. Qed.
+  Lemma read_in_app_r a b nm : read_in b nm -> read_in (a ++ b) nm.
+  Proof. intros [(r & H)|(pa & p & H)]; [left; exists r|right; exists pa, p]; apply in_or_app; now right. Qed.
+
+  Lemma rpm_passed s ow prev phs : forall sw acc rem sw' evs rem' ctrlof failed,
+    reconcile_phases_m force sw s ow prev phs acc rem = (sw', evs, rem', MOk ctrlof failed) ->
+    NoDup (local_keys ow phs) ->
+    exists pre post, phs = pre ++ post /\ (forall q, In q pre -> passed sw' s ow q) /\
+      match failed with
+      | None => post = []
+      | Some n => exists ph post', post = ph :: post' /\ ph_name ph = n /\ fails sw' s ow ph
+      end /\
+      Forall (fun e => In (ev_key e) (local_keys ow (pre ++ firstn 1 post))) (member_evs evs) /\
+      (forall q, In q (pre ++ firstn 1 post) -> ph_class q = true -> read_in evs (pobj_name s q)).
+  Proof.
+    induction phs as [|ph rest IH]; intros sw acc rem sw' evs rem' ctrlof failed H Hnd.
+    - cbn in H. injection H as <- <- _ _ <-. exists [], []. split; [reflexivity|]. split; [intros q []|]. split; [reflexivity|].
+      split; [constructor|intros q []].
+    - rewrite rpm_cons in H. destruct (ph_class ph) eqn:Ecl.
+      + rewrite (local_keys_cons_remote _ _ _ Ecl) in Hnd.
+        destruct (remote_reconcile sw s ph rem) as [[[sw1 e1] rem1] r1] eqn:E1.
+        destruct (remote_reconcile_inv _ _ _ _ _ _ _ _ E1) as (_ & _ & _ & Hev & _ & Hres).
+        pose proof (only_phase_members _ _ Hev) as Hm1.
+        destruct r1 as [|active fl]; [discriminate|].
+        destruct (remote_step_ok _ _ _ _ _ _ _ _ _ E1) as (cur & Hc & Hr & Ho & Hp).
+        assert (Hread : read_in e1 (pobj_name s ph)).
+        { destruct Hres as (c0 & _ & _ & [Hg|(pa & Hg)]); [left; eauto|right; eauto]. }
+        destruct fl.
+        * injection H as <- <- _ _ <-. exists [], (ph :: rest). split; [reflexivity|]. split; [intros q []|]. split; [|split].
+          -- exists ph, rest. split; [reflexivity|]. split; [reflexivity|]. unfold fails. rewrite Ecl. exists cur, active. auto.
+          -- rewrite Hm1. constructor.
+          -- intros q [<-|[]] _. exact Hread.
+        * destruct (reconcile_phases_m force sw1 s ow prev rest (acc ++ active) rem1) as [[[sw2 e2] rem2] r2] eqn:E2.
+          injection H as <- <- _ ->.
+          destruct (IH _ _ _ _ _ _ _ _ E2 Hnd) as (pre & post & -> & Hpre & Hfail & Hmem & Hrd).
+          exists (ph :: pre), post. split; [reflexivity|]. split; [|split; [exact Hfail|split]].
+          -- intros q [<-|Hq]; [|now apply Hpre]. unfold passed. rewrite Ecl. exists cur.
+             split; [|split; [now destruct (relay_ok _ _ Hr)|split; [exact Ho|exact Hp]]].
+             unfold phase_obj_of in *. eapply rpm_keeps; eauto.
+          -- rewrite member_evs_app, Hm1. cbn [app]. now rewrite (local_keys_cons_remote _ _ _ Ecl).
+          -- intros q [<-|Hq] Hcq; [now apply read_in_app_l|apply read_in_app_r; now apply Hrd].
+      + rewrite (local_keys_cons_local _ _ _ Ecl) in Hnd.
+        pose proof (NoDup_app_r _ _ Hnd) as Hnd_rest. pose proof (NoDup_app_l _ _ Hnd) as Hnd0.
+        destruct (reconcile_phase c idw (sw_w sw) ow prev false (ph_objects ph)) as [[w1 e1] r1] eqn:E1.
+        pose proof (rec_phase_events_in force _ _ _ _ _ _ _ _ E1) as Hin1.
+        destruct r1 as [e|vs|actual fl]; [discriminate|discriminate|].
+        pose proof E1 as E1'. unfold reconcile_phase in E1'. destruct (flat_map _ (ph_objects ph)); [|discriminate].
+        destruct fl as [|f fs].
+        * cbv zeta in H.
+          match type of H with context [reconcile_phases_m force ?a s ow prev rest ?b ?d] =>
+            destruct (reconcile_phases_m force a s ow prev rest b d) as [[[sw2 e2] rem2] r2] eqn:E2 end.
+          injection H as <- <- _ ->.
+          destruct (IH _ _ _ _ _ _ _ _ E2 Hnd_rest) as (pre & post & -> & Hpre & Hfail & Hmem & Hrd).
+          exists (ph :: pre), post. split; [reflexivity|]. split; [|split; [exact Hfail|split]].
+          -- intros q [<-|Hq]; [|now apply Hpre]. unfold passed. rewrite Ecl.
+             destruct (rec_objs_ok_present2 ow prev _ _ _ _ _ _ _ E1' Hnd0) as [_ Hall].
+             intros p Hp. eapply obj_ok2_frame; [|exact (Hall p Hp)].
+             destruct (rpm_inv force _ _ _ _ _ _ _ _ _ _ _ E2) as (_ & _ & _ & _ & Hfr & _).
+             rewrite Hfr; [reflexivity|]. eapply NoDup_app_disj; [exact Hnd|]. unfold phase_keys. now apply in_map.
+          -- rewrite member_evs_app, member_evs_members. cbn [app]. rewrite (local_keys_cons_local _ _ _ Ecl).
+             apply Forall_app. split.
+             ++ eapply Forall_impl; [|exact Hin1]. cbn. intros x Hx. apply in_or_app. now left.
+             ++ eapply Forall_impl; [|exact Hmem]. cbn. intros x Hx. apply in_or_app. now right.
+          -- intros q [<-|Hq] Hcq; [congruence|apply read_in_app_r; now apply Hrd].
+        * injection H as <- <- _ _ <-. exists [], (ph :: rest). split; [reflexivity|]. split; [intros q []|]. split; [|split].
+          -- exists ph, rest. split; [reflexivity|]. split; [reflexivity|]. unfold fails. rewrite Ecl.
+             destruct (rec_objs_failed_witness force ow prev _ _ _ _ _ _ _ _ E1' Hnd0) as (extra & Hf & Hex). cbn in Hf. subst extra.
+             apply Hex. discriminate.
+          -- rewrite member_evs_members. cbn [app firstn]. rewrite (local_keys_cons_local _ _ _ Ecl).
+             eapply Forall_impl; [|exact Hin1]. cbn. intros x Hx. apply in_or_app. now left.
+          -- intros q [<-|[]] Hcq. congruence.
+  Qed.
+End Passed.
